@@ -150,9 +150,13 @@ class ClientAuth:
             oauth_body_hash = base64.b64encode(hashlib.sha1(body).digest())
             oauth_params.append(("oauth_body_hash", oauth_body_hash.decode("utf-8")))
 
-        uri, headers, body = self._render(uri, headers, body, oauth_params)
+        signing_uri, signing_headers, signing_body = self._render(
+            uri, headers, body, oauth_params
+        )
 
-        sig = self.get_oauth_signature(method, uri, headers, body)
+        sig = self.get_oauth_signature(
+            method, signing_uri, signing_headers, signing_body
+        )
         oauth_params.append(("oauth_signature", sig))
 
         uri, headers, body = self._render(uri, headers, body, oauth_params)
